@@ -597,6 +597,11 @@ class LoopMixin:
         else:
             outs = self.exec_block(fn.body, st)
         self.stats["paths"] += len(outs)
+        if c.ensures and outs and not any(o.kind in ("normal", "return") for o in outs) and not c.extra.get("never_returns") \
+                and not c.extra.get("nonterminating_ok"):
+            # the contract promises something about normal returns but no path returns: its postconditions would be vacuous
+            # (typically a call that cannot bind, hidden behind a catch-all raises clause)
+            self.vacuous_paths.append("no path of %s returns normally although it has postconditions" % c.qualname)
         for o in outs:
             self.check_exit(c, o, fid)
         obs = self.obs
